@@ -57,13 +57,41 @@ impl Hop {
     }
 }
 
-/// Which (more expensive or type specific) observations to make.
+/// What the ambient context already holds when an ambient hop (`CtxtPush`, `Ambient`, `CtxtThread`)
+/// pushes the case's props: an ENCLOSING frame that is entered first. Its value for the case's key is a
+/// decoy derived from the value being pushed; whatever it is, it must never show through the push.
+#[derive(Serialize, Deserialize, Debug, Clone, Copy, PartialEq, Eq, Default)]
+pub enum Enclosing {
+    /// the context is empty (apart from what earlier hops of the same path left current)
+    #[default]
+    None,
+    /// same key, a value of a DIFFERENT type with the SAME Display text: the text as a string (a
+    /// Display-only value of the same text when the pushed value is itself a string)
+    SameTextString,
+    /// same key, same text, numeric retype where there is one (`1.0` <-> `1`, `5u8` <-> `5.0`, beyond
+    /// 2^53 another integer width); falls back to `SameTextString`
+    SameTextNumber,
+    /// same key, the same value (control)
+    SameValue,
+    /// same key, a different value of the same kind (control)
+    OtherValue,
+    /// the key is absent from the enclosing frame, other keys are present
+    OtherKeys,
+}
+
+pub const ENC_SAME_TEXT: &str = "ambient:enclosing-frame-same-key-same-text-other-type";
+pub const ENC_SAME_VALUE: &str = "ambient:enclosing-frame-same-key-same-value";
+pub const ENC_OTHER_VALUE: &str = "ambient:enclosing-frame-same-key-other-value";
+pub const ENC_OTHER_KEYS: &str = "ambient:enclosing-frame-other-keys";
+
+/// Which (more expensive or type specific) observations to make, and how ambient hops are set up.
 #[derive(Debug, Clone, Copy, Default)]
 pub struct Want {
     pub ids: bool,
     pub as_map: bool,
     /// also serialise through the length-hint-insensitive serde JSON writer (D17 characterisation)
     pub nohint: bool,
+    pub enc: Enclosing,
 }
 
 #[derive(Debug, Clone, Default)]
@@ -178,6 +206,9 @@ pub struct Read {
     /// `serde_json(props.as_map())`, `sval_json(props.as_map())`
     pub map_serde: Option<Result<String, String>>,
     pub map_sval: Option<Result<String, String>>,
+    /// set on the first read after an ambient hop that was made inside an enclosing frame: the class
+    /// of what that frame held (one of the `ENC_*` labels)
+    pub enclosing: Option<&'static str>,
 }
 
 pub fn read<P: Props + ?Sized>(props: &P, key: &str, hops: usize, want: Want) -> Read {
@@ -203,7 +234,7 @@ pub fn read<P: Props + ?Sized>(props: &P, key: &str, hops: usize, want: Want) ->
     } else {
         (None, None)
     };
-    Read { hops, got, enumerated, total, first_enumerated: first, map_serde, map_sval }
+    Read { hops, got, enumerated, total, first_enumerated: first, map_serde, map_sval, enclosing: None }
 }
 
 thread_local! {
@@ -221,6 +252,96 @@ fn collect<P: Props + ?Sized>(props: &P, shared: bool) -> Vec<(Str<'static>, Own
         ControlFlow::Continue(())
     });
     out
+}
+
+type OwnedProps = Vec<(Str<'static>, OwnedValue)>;
+
+fn owned_str(s: &str) -> OwnedValue {
+    Value::from(s).to_owned()
+}
+
+/// The contents of the enclosing frame for an ambient hop over `props` (None = no enclosing frame).
+fn enclosing_props<P: Props + ?Sized>(props: &P, key: &str, enc: Enclosing) -> Option<(OwnedProps, &'static str)> {
+    let other_keys = || vec![(Str::new("w0"), Value::from(1i64).to_owned()), (Str::new("w1"), owned_str("enclosing"))];
+    match enc {
+        Enclosing::None => return None,
+        Enclosing::OtherKeys => return Some((other_keys(), ENC_OTHER_KEYS)),
+        _ => {}
+    }
+    // a property that is not there (optional None) cannot be shadowed: no enclosing frame then
+    let v = props.get(key)?;
+    let text = v.to_string();
+    let is_string = v.to_cow_str().is_some();
+    let int: Option<(bool, u128)> = match (v.by_ref().cast::<i128>(), v.by_ref().cast::<u128>()) {
+        (Some(n), _) => Some((n < 0, n.unsigned_abs())),
+        (None, Some(n)) => Some((false, n)),
+        _ => None,
+    };
+    let float: Option<f64> = if int.is_none() { v.by_ref().cast::<f64>() } else { None };
+    let same_text_string = || {
+        if is_string {
+            // a Display-only value with the string's text
+            Value::from_display(&text).to_owned()
+        } else {
+            owned_str(&text)
+        }
+    };
+    let (decoy, label) = match enc {
+        Enclosing::SameValue => (v.to_owned(), ENC_SAME_VALUE),
+        Enclosing::SameTextString => (same_text_string(), ENC_SAME_TEXT),
+        Enclosing::SameTextNumber => {
+            let cand = match (int, float) {
+                (Some((neg, mag)), _) if mag <= 1u128 << 53 => Some(Value::from(if neg { -(mag as f64) } else { mag as f64 }).to_owned()),
+                (Some((false, mag)), _) if mag <= i128::MAX as u128 && v.by_ref().cast::<u64>().is_some() => Some(Value::from(mag as i128).to_owned()),
+                (Some((false, mag)), _) => Some(Value::from(mag).to_owned()),
+                (Some((true, mag)), _) => Some(Value::from((mag as i128).wrapping_neg()).to_owned()),
+                (None, Some(f)) if f.fract() == 0.0 && f.abs() < 9.2e18 => Some(Value::from(f as i64).to_owned()),
+                _ => None,
+            };
+            match cand {
+                Some(c) if c.by_ref().to_string() == text => (c, ENC_SAME_TEXT),
+                _ => (same_text_string(), ENC_SAME_TEXT),
+            }
+        }
+        _ => {
+            let cand = if let Some(b) = v.by_ref().cast::<bool>() {
+                Value::from(!b).to_owned()
+            } else if is_string {
+                owned_str(&format!("{text}~"))
+            } else if let Some((neg, mag)) = int {
+                match (neg, u64::try_from(mag), i64::try_from(mag)) {
+                    (false, _, Ok(n)) => Value::from(n ^ 1).to_owned(),
+                    (false, Ok(n), _) => Value::from(n ^ 1).to_owned(),
+                    (false, _, _) => Value::from(mag ^ 1).to_owned(),
+                    (true, _, _) => Value::from((mag as i128).wrapping_neg() ^ 1).to_owned(),
+                }
+            } else if let Some(f) = float {
+                Value::from(if f.is_finite() && f + 1.0 != f { f + 1.0 } else { 1.5 }).to_owned()
+            } else {
+                owned_str(&format!("decoy of {text}"))
+            };
+            if cand.by_ref().to_string() == text {
+                (owned_str(&format!("decoy of {text}")), ENC_OTHER_VALUE)
+            } else {
+                (cand, ENC_OTHER_VALUE)
+            }
+        }
+    };
+    Some((vec![(Str::new_ref(key).to_owned(), decoy)], label))
+}
+
+/// Run `f` with the enclosing frame (if any) entered on `c`.
+fn in_enclosing<R>(c: emit::platform::thread_local_ctxt::ThreadLocalCtxt, enc: &Option<(OwnedProps, &'static str)>, f: impl FnOnce() -> R) -> R {
+    match enc {
+        Some((props, _)) => emit::Frame::push(c, &props[..]).call(f),
+        None => f(),
+    }
+}
+
+fn tag(reads: &mut [Read], at: usize, enc: &Option<(OwnedProps, &'static str)>) {
+    if let (Some(r), Some((_, label))) = (reads.get_mut(at), enc) {
+        r.enclosing = Some(label);
+    }
 }
 
 /// Follow `hops` starting from `props`; read the key at the start and after every hop.
@@ -259,7 +380,11 @@ pub fn drive<P: Props + ?Sized>(props: &P, key: &str, hops: &[Hop], done: usize,
         }
         Hop::CtxtPush => {
             let c = ctxt();
-            emit::Frame::push(c, props).call(|| c.with_current(|cur| drive(cur, key, rest, done, want, out)))
+            let enc = enclosing_props(props, key, want.enc);
+            let at = out.len();
+            let res = in_enclosing(c, &enc, || emit::Frame::push(c, props).call(|| c.with_current(|cur| drive(cur, key, rest, done, want, out))));
+            tag(out, at, &enc);
+            res
         }
         Hop::CtxtRoot => {
             let c = ctxt();
@@ -274,18 +399,24 @@ pub fn drive<P: Props + ?Sized>(props: &P, key: &str, hops: &[Hop], done: usize,
                 *res = drive(evt.props(), key, rest, done, want, reads);
             });
             let rt = emit::runtime::Runtime::new().with_emitter(emitter).with_ctxt(c);
-            emit::Frame::push(c, props).call(|| {
-                rt.emit(emit::Event::new(emit::path!("c19"), emit::Template::literal("c19"), emit::Empty, emit::Empty));
+            let enc = enclosing_props(props, key, want.enc);
+            in_enclosing(c, &enc, || {
+                emit::Frame::push(c, props).call(|| {
+                    rt.emit(emit::Event::new(emit::path!("c19"), emit::Template::literal("c19"), emit::Empty, emit::Empty));
+                })
             });
             drop(rt);
-            let (reads, res) = result.into_inner();
+            let (mut reads, res) = result.into_inner();
+            tag(&mut reads, 0, &enc);
             out.extend(reads);
             res
         }
         Hop::CtxtThread => {
             let c = ctxt();
-            let frame = emit::Frame::push(c, props);
-            let (reads, res) = std::thread::scope(|s| {
+            // the frame is opened (here) while the enclosing frame is entered, then carried away
+            let enc = enclosing_props(props, key, want.enc);
+            let frame = in_enclosing(c, &enc, || emit::Frame::push(c, props));
+            let (mut reads, res) = std::thread::scope(|s| {
                 s.spawn(move || {
                     let mut reads = Vec::new();
                     let res = match vcore::catch(|| frame.call(|| c.with_current(|cur| drive(cur, key, rest, done, want, &mut reads)))) {
@@ -297,6 +428,7 @@ pub fn drive<P: Props + ?Sized>(props: &P, key: &str, hops: &[Hop], done: usize,
                 .join()
                 .expect("reader thread")
             });
+            tag(&mut reads, 0, &enc);
             out.extend(reads);
             res
         }
